@@ -1,6 +1,7 @@
 SPECIFICATION Spec
 CONSTANTS
   BS = 2
+  RdMax = 2
   Nmaxbs = {0, 1, 2, 3, 4}
   Extras = {0, 1}
   Nbrs = {1, 2, 3}
